@@ -271,10 +271,74 @@ pub fn build_package(opts: PackageInputs) -> Result<CoreUnit, CompilationError> 
     Ok(unit)
 }
 
+/// Deepest JSON nesting `read_core` accepts. Far more than the rest of the pipeline can process.
+const MAX_CORE_NESTING: usize = 10_000;
+
+fn json_nesting_depth(json: &str) -> usize {
+    let (mut depth, mut deepest) = (0usize, 0usize);
+    let (mut in_string, mut escaped) = (false, false);
+    for byte in json.bytes() {
+        if in_string {
+            if escaped {
+                escaped = false;
+            } else if byte == b'\\' {
+                escaped = true;
+            } else if byte == b'"' {
+                in_string = false;
+            }
+            continue;
+        }
+        match byte {
+            b'"' => in_string = true,
+            b'[' | b'{' => {
+                depth += 1;
+                deepest = deepest.max(depth);
+            }
+            b']' | b'}' => depth = depth.saturating_sub(1),
+            _ => {}
+        }
+    }
+    deepest
+}
+
+// Every sequential `let` of a function body adds a level of nesting to the Core IR, so ordinary
+// functions exceed serde_json's default limit of 128 levels: a package that builds could not be
+// linked. Parse without that limit, on a thread whose stack is sized for the nesting of the input.
+fn parse_core(json: &str) -> Result<CoreUnit, String> {
+    use serde::Deserialize;
+
+    let depth = json_nesting_depth(json);
+    if depth > MAX_CORE_NESTING {
+        return Err(format!(
+            "nesting of {} levels exceeds the supported {}",
+            depth, MAX_CORE_NESTING
+        ));
+    }
+    let parse = || -> Result<CoreUnit, String> {
+        let mut deserializer = serde_json::Deserializer::from_str(json);
+        deserializer.disable_recursion_limit();
+        let unit = CoreUnit::deserialize(&mut deserializer).map_err(|err| err.to_string())?;
+        deserializer.end().map_err(|err| err.to_string())?;
+        Ok(unit)
+    };
+    if depth <= 100 {
+        return parse();
+    }
+    let stack_size = 16 * 1024 * 1024 + depth * 16 * 1024;
+    std::thread::scope(|scope| {
+        std::thread::Builder::new()
+            .stack_size(stack_size)
+            .spawn_scoped(scope, parse)
+            .map_err(|err| format!("cannot start the parser thread: {}", err))?
+            .join()
+            .unwrap_or_else(|_| Err("the parser panicked".to_string()))
+    })
+}
+
 pub fn read_core(path: &Path) -> Result<CoreUnit, CompilationError> {
     let json = fs::read_to_string(path)
         .map_err(|err| compile_error(format!("failed to read {}: {}", path.display(), err)))?;
-    let unit: CoreUnit = serde_json::from_str(&json)
+    let unit: CoreUnit = parse_core(&json)
         .map_err(|err| compile_error(format!("failed to parse {}: {}", path.display(), err)))?;
     if !unit.validate() {
         return Err(compile_error(format!(
